@@ -39,7 +39,11 @@ def _call(op, circ, env, n_visits, nq, np_seed):
     if op == "mac":
         return guard(expand_macros, circ, what=op)
     if op == "let":
-        return guard(fill_in_let, circ, dict(env) if env else None, what=op)
+        ov = dict(env) if env else None
+        r = guard(fill_in_let, circ, ov, what=op)
+        if ov is not None and (ov != env or list(ov) != list(env)):
+            raise Violation("input-modified", f"fill_in_let changed the override dictionary it was given: {env} -> {ov}", where="override-dict")
+        return r
     if op == "map":
         return guard(fill_in_map, circ, what=op)
     if op == "sub":
